@@ -28,8 +28,8 @@ let parse_sx (s : ostring) : sx =
     end in
   one ()
 
-let ty_of = function "int" -> TInt | "bool" -> TBool | "void" -> TVoid | "str" -> TStr | t -> failwith ("ty " ^ t)
-let ty_name = function TInt -> "int" | TBool -> "bool" | TVoid -> "void" | TStr -> "str"
+let ty_of = function "int" -> TInt | "bool" -> TBool | "void" -> TVoid | "str" -> TStr | "arr" -> TArr | t -> failwith ("ty " ^ t)
+let ty_name = function TInt -> "int" | TBool -> "bool" | TVoid -> "void" | TStr -> "str" | TArr -> "arr"
 let binops = [("add",BAdd);("sub",BSub);("mul",BMul);("div",BDiv);("mod",BMod);("eq",BEq);("ne",BNe);("lt",BLt);("le",BLe);
               ("gt",BGt);("ge",BGe);("and",BAnd);("or",BOr)]
 let binop_of (o : ostring) : binop = try List.assoc o binops with Not_found -> failwith ("binop " ^ o)
@@ -45,6 +45,9 @@ let rec expr_of (x : sx) : expr =
   | L [A "bin"; A o; a; b] -> EBin (binop_of o, expr_of a, expr_of b)
   | L (A "call" :: A f :: args) -> ECall (n_of_hex f, List.map expr_of args)
   | L [A "cond"; c; a; b] -> ECond (expr_of c, expr_of a, expr_of b)
+  | L (A "arr" :: es) -> EArr (List.map expr_of es)
+  | L [A "at"; a; i] -> EAt (expr_of a, expr_of i)
+  | L [A "len"; a] -> ELen (expr_of a)
   | _ -> failwith "expr"
 let rec stmt_of (x : sx) : stmt =
   match x with
@@ -87,6 +90,9 @@ let rec sx_expr (e : expr) : ostring =
   | EBin (o, a, b) -> "(bin " ^ binop_name o ^ " " ^ sx_expr a ^ " " ^ sx_expr b ^ ")"
   | ECall (f, args) -> "(call " ^ hex_of_n f ^ String.concat "" (List.map (fun a -> " " ^ sx_expr a) args) ^ ")"
   | ECond (c, a, b) -> "(cond " ^ sx_expr c ^ " " ^ sx_expr a ^ " " ^ sx_expr b ^ ")"
+  | EArr es -> "(arr" ^ String.concat "" (List.map (fun a -> " " ^ sx_expr a) es) ^ ")"
+  | EAt (a, i) -> "(at " ^ sx_expr a ^ " " ^ sx_expr i ^ ")"
+  | ELen a -> "(len " ^ sx_expr a ^ ")"
 let rec sx_stmt (s : stmt) : ostring =
   match s with
   | SSkip -> "(skip)"
@@ -118,6 +124,9 @@ let rec paths_expr (e : expr) (pre : int list) (acc : int list list ref) : unit 
   | EBin (_, a, b) -> paths_expr a (0 :: pre) acc; paths_expr b (1 :: pre) acc
   | ECall (_, args) -> List.iteri (fun i a -> paths_expr a (i :: pre) acc) args
   | ECond (c, a, b) -> paths_expr c (0 :: pre) acc; paths_expr a (1 :: pre) acc; paths_expr b (2 :: pre) acc
+  | EArr es -> List.iteri (fun i a -> paths_expr a (i :: pre) acc) es
+  | EAt (a, i) -> paths_expr a (0 :: pre) acc; paths_expr i (1 :: pre) acc
+  | ELen a -> paths_expr a (0 :: pre) acc
   | _ -> ()
 let rec paths_stmt (s : stmt) (pre : int list) (acc : int list list ref) : unit =
   acc := List.rev pre :: !acc;
@@ -142,6 +151,9 @@ let rec max_e (e : expr) : int =
   | EBin (_, a, b) -> max (max_e a) (max_e b)
   | ECall (f, args) -> List.fold_left (fun m a -> max m (max_e a)) (int_of_n f) args
   | ECond (c, a, b) -> max (max_e c) (max (max_e a) (max_e b))
+  | EArr es -> List.fold_left (fun m a -> max m (max_e a)) 0 es
+  | EAt (a, i) -> max (max_e a) (max_e i)
+  | ELen a -> max_e a
   | _ -> 0
 let rec max_s (s : stmt) : int =
   match s with
